@@ -7,6 +7,8 @@ import (
 
 // SortedKeys returns the keys of m in ascending order: the deterministic replacement for Go's
 // randomised map iteration order.
+//
+//go:norace
 func SortedKeys[M ~map[K]V, K cmp.Ordered, V any](m M) []K {
 	keys := make([]K, 0, len(m))
 	for k := range m {
